@@ -6,7 +6,7 @@
 Require Import Grits.Base Grits.ModeDefs Grits.Modes Grits.STypes Grits.Forms Grits.Infer Grits.Tokens Grits.Scan
                Grits.gen.LRTables Grits.gen.LRCert Grits.LR Grits.Actions Grits.Expand
                Grits.proofs.ScanProofs Grits.proofs.LRCheck Grits.proofs.LRProof Grits.proofs.LRCertInst
-               Grits.proofs.ParseTotal Grits.proofs.LRSound Grits.proofs.LRSoundInst Grits.proofs.ActionsTyped.
+               Grits.spec.ScanSpec Grits.proofs.ScanCover Grits.proofs.ParseTotal Grits.proofs.LRSound Grits.proofs.LRSoundInst Grits.proofs.ActionsTyped.
 Local Open Scope Z_scope.
 
 (* scanner: never out of fuel (fuel = length + 1), for every byte string *)
@@ -19,6 +19,12 @@ Proof. exact scan_iters_linear. Qed.
 
 Theorem C11_scan_tokens_linear : forall s l, scan_all s = Tokens l -> (length l <= String.length s + 1)%nat.
 Proof. exact scan_tokens_linear. Qed.
+
+(* scanner: bytes read.  One call of Scan reads every byte of the span it consumes once, re-reads at
+   most two bytes it had put back and probes the end of the input at most once (scan_reads counts
+   |span| + 3 per call of the instrumented scanner, whose spans are proved to tile the text) *)
+Theorem C11_scan_reads_linear : forall s l u, scan_items s = Some (l, u) -> (scan_reads l <= 4 * String.length s + 3)%nat.
+Proof. exact scan_reads_linear. Qed.
 
 (* LR driver: for every token list and every semantic-value algebra, C * n + Phi0 + 1 iterations suffice *)
 Theorem C11_lr_terminates : forall (V : Type) (tok_val : tk * string -> V) (ra : Z -> list V -> option V)
@@ -81,6 +87,7 @@ Print Assumptions C11_scan_total.
 Print Assumptions C11_parse_statements_result.
 Print Assumptions C11_no_action_error.
 Print Assumptions C11_scan_steps_linear.
+Print Assumptions C11_scan_reads_linear.
 Print Assumptions C11_scan_tokens_linear.
 Print Assumptions C11_lr_terminates.
 Print Assumptions C11_lr_fuel_enough.
